@@ -356,7 +356,7 @@ class _MessageDB(_Entity):
 
         elif idx:
             msg_dict = {
-                k: v for d in msg.payload for k, v in d.items() if d[idx] == val
+                k: v for d in msg.payload for k, v in d.items() if d.get(idx) == val
             }
         else:
             # TODO: this isn't ideal: e.g. a controller is being treated like a 'stat
